@@ -21,7 +21,7 @@ func tqLabel(r *h.Rng) string {
 	switch {
 	case r.Chance(18):
 		return "duration"
-	case r.Chance(5):
+	case r.Chance(1):
 		return h.Pick(r, tqOddLabels)
 	}
 	return h.Pick(r, tqAttrLabels)
@@ -46,7 +46,7 @@ func tqQuote(r *h.Rng, s string) string {
 	if r.Chance(20) && !strings.ContainsAny(s, "`\\") {
 		return "`" + s + "`"
 	}
-	if r.Chance(4) {
+	if r.Chance(2) {
 		return h.Pick(r, []string{`"\d+"`, "`a\\`b`", "`a\\d`", `"é"`, `"a\/b"`})
 	}
 	b, _ := json.Marshal(s)
@@ -78,9 +78,9 @@ var tqUnits = []string{"ns", "us", "ms", "s", "m", "h"}
 func tqDuration(r *h.Rng) string {
 	s := h.Pick(r, []string{"0", "1", "2", "10", "15", "100", "250", "999"})
 	if r.Chance(25) {
-		s += "." + h.Pick(r, []string{"5", "25", "001", "75", "0", ""})
+		s += "." + h.Pick(r, []string{"5", "25", "001", "75", "0", "50"})
 	}
-	if r.Chance(4) {
+	if r.Chance(1) {
 		return s + "d"
 	}
 	return s + h.Pick(r, tqUnits)
@@ -89,24 +89,24 @@ func tqDuration(r *h.Rng) string {
 func tqTerm(r *h.Rng) string {
 	lbl := tqLabel(r)
 	sp := h.Pick(r, []string{"", " "})
-	if lbl == "duration" && !r.Chance(8) {
+	if lbl == "duration" && !r.Chance(2) {
 		return lbl + sp + h.Pick(r, []string{"=", "!=", "<", "<=", ">", ">=", ">", ">="}) + sp + tqDuration(r)
 	}
 	switch r.Intn(10) {
 	case 0, 1, 2:
 		op := h.Pick(r, []string{"=", "!=", "<", "<=", ">", ">=", "=", ">"})
-		if r.Chance(4) {
+		if r.Chance(1) {
 			op = h.Pick(r, []string{"=~", "!~"})
 		}
 		return lbl + sp + op + sp + tqNumber(r, true)
 	case 3:
-		if r.Chance(30) {
+		if r.Chance(5) {
 			return lbl + sp + h.Pick(r, []string{"=", ">"}) + sp + tqDuration(r)
 		}
 		fallthrough
 	default:
 		op := h.Pick(r, []string{"=", "=", "!=", "=~", "!~"})
-		if r.Chance(4) {
+		if r.Chance(1) {
 			op = h.Pick(r, []string{"<", ">="})
 		}
 		v := tqString(r)
@@ -147,13 +147,13 @@ func tqAgg(r *h.Rng) string {
 	cmp := h.Pick(r, []string{"=", "!=", "<", "<=", ">", ">="})
 	num := tqNumber(r, true)
 	unit := ""
-	if attr == "duration" && !r.Chance(10) {
+	if attr == "duration" && !r.Chance(3) {
 		num = h.Pick(r, []string{"0", "1", "2", "15", "100", "1.5", "0.25", "-1"})
 		unit = h.Pick(r, tqUnits)
-		if r.Chance(4) {
+		if r.Chance(2) {
 			unit = "d"
 		}
-	} else if r.Chance(5) {
+	} else if r.Chance(2) {
 		unit = h.Pick(r, tqUnits)
 	}
 	return fmt.Sprintf(" | %s(%s) %s %s%s", fn, attr, cmp, num, unit)
